@@ -269,6 +269,63 @@ func c03body(p c03param) c03obs {
 			res = append(res, cb)
 		}
 		return c03obs{Out: [][]c03batch{res}}
+	case "copytee":
+		first, second := c03source("r", p.Parts, p.Perm, 4).CopyTee()
+		var sout []c03batch
+		done := vsched.Make[*vsched.Chan[int]]()
+		vsched.Go(func() { sout = c03drain(second); done.Send(1) })
+		fout := c03drain(first)
+		done.Recv()
+		return c03obs{Out: [][]c03batch{fout, sout}}
+	case "pushback":
+		// the idiom of the universal writer: look at the first batch, push it back, hand the iterator on
+		it := c03source("r", p.Parts, p.Perm, 4)
+		note := ""
+		if it.Next() {
+			b := it.Get()
+			note = fmt.Sprint("peeked ", b.Order())
+			it.PushBack()
+		}
+		o := c03obs{Out: [][]c03batch{c03drain(it)}}
+		_ = note
+		return o
+	case "split2":
+		// the idiom of every worker pool: clones of one iterator consumed by several goroutines
+		it := c03source("r", p.Parts, p.Perm, 4)
+		outs := make([][]c03batch, p.Workers)
+		done := vsched.Make[*vsched.Chan[int]]()
+		for i := 1; i < p.Workers; i++ {
+			i := i
+			cl := it.Split()
+			vsched.Go(func() { outs[i] = c03drain(cl); done.Send(1) })
+		}
+		outs[0] = c03drain(it)
+		for i := 1; i < p.Workers; i++ {
+			done.Recv()
+		}
+		fin := ""
+		if !it.Finished() {
+			fin = "Finished() is false after every clone saw the end of the stream"
+		}
+		return c03obs{Out: outs, Note: fin}
+	case "limitmemory":
+		return c03obs{Out: [][]c03batch{c03drain(c03source("r", p.Parts, p.Perm, 4).LimitMemory(2.0))}}
+	case "load":
+		_, sl := c03source("r", p.Parts, p.Perm, 4).Load()
+		cb := c03batch{Order: 0}
+		for _, s := range sl {
+			cb.Ids = append(cb.Ids, s.Id())
+		}
+		return c03obs{Out: [][]c03batch{{cb}}}
+	case "count":
+		v, rd, nuc := c03source("r", p.Parts, p.Perm, 4).Count(false)
+		return c03obs{Out: [][]c03batch{{}}, Keys: []int{v, rd, nuc}}
+	case "pipe":
+		// Pipe / Pipeline / WorkerPipe / SliceWorkerPipe: the functional composition used by the commands
+		w1 := func(s *obiseq.BioSequence) (obiseq.BioSequenceSlice, error) { return obiseq.BioSequenceSlice{s}, nil }
+		w2 := func(sl obiseq.BioSequenceSlice) (obiseq.BioSequenceSlice, error) { return sl, nil }
+		it := c03source("r", p.Parts, p.Perm, 4).Pipe(WorkerPipe(w1, false, p.Workers), SliceWorkerPipe(w2, false, p.Workers))
+		return c03obs{Out: [][]c03batch{c03drain(it)}}
 	case "pipeline":
 		// the composition used by the record-wise commands: workers -> slice workers -> filter -> rebatch
 		w1 := func(s *obiseq.BioSequence) (obiseq.BioSequenceSlice, error) {
@@ -545,6 +602,52 @@ func c03oracle(p c03param, o c03obs) (string, string) {
 			return "numbering", m
 		}
 		return "", ""
+	case "copytee":
+		if len(o.Out) != 2 {
+			return "wrong", "missing output"
+		}
+		for i := range o.Out {
+			got := c03flatten(o.Out[i])
+			if c := c03classify(got, all, true); c != "" {
+				return c, fmt.Sprintf("output %d delivered %v, expected %v", i, got, all)
+			}
+			if m := c03numbering(o.Out[i]); m != "" {
+				return "numbering", fmt.Sprintf("output %d: %s", i, m)
+			}
+		}
+		return "", ""
+	case "pushback", "limitmemory", "pipe":
+		return one(all, true, true, false)
+	case "split2":
+		var union []c03batch
+		for _, l := range o.Out {
+			union = append(union, l...)
+		}
+		got := c03flatten(union)
+		if c := c03classify(got, all, true); c != "" {
+			return c, fmt.Sprintf("the clones received together %v, expected %v", got, all)
+		}
+		if m := c03numbering(union); m != "" {
+			return "numbering", m
+		}
+		return "", ""
+	case "load":
+		sortedArrival := true
+		for i, v := range p.Perm {
+			if v != i {
+				sortedArrival = false
+			}
+		}
+		got := c03flatten(o.Out[0])
+		if c := c03classify(got, all, sortedArrival); c != "" {
+			return c, fmt.Sprintf("loaded %v, expected %v", got, all)
+		}
+		return "", ""
+	case "count":
+		if len(o.Keys) != 3 || o.Keys[0] != n || o.Keys[1] != n || o.Keys[2] != 4*n {
+			return "lost", fmt.Sprintf("Count() = %v, expected (%d,%d,%d)", o.Keys, n, n, 4*n)
+		}
+		return "", ""
 	case "completefile":
 		sortedArrival := true
 		for i, v := range p.Perm {
@@ -615,6 +718,13 @@ func c03scenarios(thorough bool) []c03scn {
 		{name: "batchover", sizes: []int{1, 2}, noPerm: true},
 		{name: "merge", sizes: []int{1, 2}, nonEmpty: true},
 		{name: "pipeline", sizes: []int{2}, workers: w12},
+		{name: "copytee"},
+		{name: "pushback"},
+		{name: "split2", workers: []int{2, 3}},
+		{name: "limitmemory"},
+		{name: "load"},
+		{name: "count"},
+		{name: "pipe", workers: w12},
 	}
 }
 
@@ -798,7 +908,8 @@ func TestVerifC03A(t *testing.T) {
 	if !verifkit.Thorough() {
 		for _, p := range params {
 			light := map[string]bool{"sort": true, "worker-keep": true, "worker-drop": true, "worker-empty": true, "iworker": true,
-				"condworker": true, "completefile": true, "batchover": true, "merge": true}
+				"condworker": true, "completefile": true, "batchover": true, "merge": true,
+				"copytee": true, "pushback": true, "split2": true, "limitmemory": true, "load": true, "count": true}
 			if light[p.Scn] && len(p.Parts) <= 1 && len(p.Parts2) <= 1 && p.Workers <= 2 {
 				jobs = append(jobs, job{p, "full", -1, 60000})
 			}
